@@ -1,6 +1,6 @@
 //! Scenario generator: accounts, request lines in every credential form (rendered twice — real
 //! HMACs / tokens for the real gate, stand-ins for the model), command texts of every kind.
-use crate::crypto::hmac_hex;
+use snel_db::verif::hmac_hex;
 use snel_harness::rng::Rng;
 
 /// A text rendered for the real code and for the model (they differ only inside signature and
